@@ -202,3 +202,12 @@ Example C17_nonvacuous_check :
     [VQty (mkq 1 1) (mkuc [("kilometer", mkq 1 1)])] (list_to_map [("b", VNum (mkq 1 1))])
     = Ok [VQty (mkq 1 1) (mkuc [("kilometer", mkq 1 1)]); VNum (mkq 1 1)].
 Proof. exact example_check. Qed.
+(** offset units (affine conversion, not a scaling): 25 degC declared kelvin / degF *)
+Example C17_nonvacuous_offset_units :
+  wraps_observed (table_sys temp_table) repaired true
+    (parse_wrap_args [SUnit (mkuc [("kelvin", mkq 1 1)]) true; SUnit (mkuc [("degree_Fahrenheit", mkq 1 1)]) false])
+    [Param "a" None; Param "b" None]
+    [VQty (mkq 25 1) (mkuc [("degree_Celsius", mkq 1 1)])]
+    (list_to_map [("b", VQty (mkq 25 1) (mkuc [("degree_Celsius", mkq 1 1)]))])
+  = Ok [VNum (mkq 5963 20); VNum (mkq 77 1)].
+Proof. exact example_offset. Qed.
